@@ -380,7 +380,9 @@ class Evaluator:
             if not uses:
                 continue
             m = uses[0]
-            al = next(x for x in als if any(y == x for y in walk(m.term)))
+            al = next((x for x in als if any(y == x for y in walk(m.term))), None)
+            if al is None:
+                continue  # first use is a test on the (still empty) accumulator, not a fill
             elt = None
             if m.kind == "call" and m.term[1] in (("attr", al, "append"), ("attr", al, "add")) and len(m.term[2]) == 1 \
                     and not m.term[3] and al[1] in ("list", "set"):
